@@ -319,6 +319,11 @@ func enumerate(s seedFile, rng *rand.Rand, quick bool, emit func(testCase)) {
 		for k := 0; k <= len(s.data); k += estep {
 			emit(testCase{dec, modeErrAt, k, s.data, fmt.Sprintf("%s/read-error@%d", s.name, k)})
 		}
+		// a source that stalls at byte k: every further call fails with an error whose
+		// Temporary()/Timeout() methods answer true (EAGAIN, a deadline) and never recovers
+		for k := 0; k <= len(s.data); k += estep * 2 {
+			emit(testCase{dec, modeStalledAt, k, s.data, fmt.Sprintf("%s/stalled-source@%d", s.name, k)})
+		}
 		// streaming readers called again after an error: one transient read error before byte k,
 		// a permanent one, and every truncation
 		if rd, ok := retryOf[dec]; ok {
@@ -349,6 +354,39 @@ func enumerate(s seedFile, rng *rand.Rand, quick bool, emit func(testCase)) {
 		for _, sp := range spans {
 			for _, tok := range hostileTokens {
 				emit(testCase{dec, modePlain, 0, replaceSpan(s.data, sp, tok), fmt.Sprintf("%s/token@%d=%q", s.name, sp[0], trunc(tok))})
+			}
+		}
+		// lines that lose their trailing tokens (a keyword left alone on its line, a record with
+		// fewer fields than its kind has), and lines that are repeated or dropped
+		if textLimit := limit; textLimit > 0 {
+			lines := bytes.SplitAfter(s.data[:textLimit], []byte("\n"))
+			rest := s.data[textLimit:]
+			lstep := 1
+			if len(lines) > 300 {
+				lstep = len(lines)/300 + 1
+			}
+			for li := 0; li < len(lines); li += lstep {
+				ln := lines[li]
+				fields := bytes.Fields(ln)
+				join := func(repl []byte) []byte {
+					var d []byte
+					for j, l := range lines {
+						if j == li {
+							d = append(d, repl...)
+						} else {
+							d = append(d, l...)
+						}
+					}
+					return append(d, rest...)
+				}
+				for keep := 1; keep < len(fields) && keep <= 6; keep++ {
+					short := append(bytes.Join(fields[:keep], []byte(" ")), '\n')
+					emit(testCase{dec, modePlain, 0, join(short), fmt.Sprintf("%s/token-line@%d-keeps-%d-of-%d-tokens", s.name, li, keep, len(fields))})
+				}
+				if len(fields) > 0 {
+					emit(testCase{dec, modePlain, 0, join(nil), fmt.Sprintf("%s/token-line@%d-dropped", s.name, li)})
+					emit(testCase{dec, modePlain, 0, join(append(append([]byte{}, ln...), ln...)), fmt.Sprintf("%s/token-line@%d-twice", s.name, li)})
+				}
 			}
 		}
 		// binary fields
